@@ -138,6 +138,18 @@ def make_fn(sig, species='function', fn_name=None):
     cls_src = f'class {name}_C:\n' + '\n'.join('  ' + l for l in src.splitlines()) + '\n'
     exec(cls_src, ns)
     fn = ns[name + '_C']()
+  elif species == 'unhashable_instance':
+    # a NEW instance on every call (never cached): instances are freed between cases, so
+    # id()-keyed caches meet address reuse; `__eq__` without `__hash__` makes it unhashable
+    ckey = (tuple(map(tuple, sig)), 'unhashable_class', fn_name)
+    if ckey not in _fn_cache:
+      src = sig_source(sig, '__call__').replace('def __call__(', 'def __call__(self, ', 1).replace('self, )', 'self)')
+      src = src.replace("Rec('__call__', ", 'Rec(' + repr(name) + ', ')
+      cls_src = (f'class {name}_U:\n  __hash__ = None\n  def __eq__(self, other):\n    return self is other\n'
+                 + '\n'.join('  ' + l for l in src.splitlines()) + '\n')
+      exec(cls_src, ns)
+      _fn_cache[ckey] = ns[name + '_U']
+    return _fn_cache[ckey]()
   elif species == 'partial':
     exec(sig_source(sig, name), ns)
     fn = functools.partial(ns[name])
